@@ -203,13 +203,65 @@ def _worker_task(task):
         del LEMMA_LOG[:]
     except Unsupported as e:
         res["error"] = "unsupported: " + str(e) + " @ " + _where()
+        _candidate_replay(h, case, res)
     except SolverUnknown as e:
         res["error"] = "solver-unknown: " + str(e)
+        _candidate_replay(h, case, res)
     except BaseException as e:  # interpreter bug
         if os.environ.get("PYSYM_TRACE"):
             traceback.print_exc()
         res["error"] = "internal: %s: %s @ %s" % (type(e).__name__, e, _where())
     return res
+
+
+def _candidate_replay(h, case, res, tries=12):
+    """The path could not be decided symbolically. Its path condition is still a source of candidate inputs: a few
+    models are replayed natively and a candidate that violates the property natively is a genuine (confirmed)
+    counterexample. Finding none proves nothing - the harness stays inconclusive."""
+    import z3
+    eng = _ENG
+    try:
+        eng.solver.set("timeout", 5000)
+        for i in range(tries):
+            if eng.solver.check() != z3.sat:
+                break
+            m = eng.solver.model()
+            inputs = eng.extract_inputs(m)
+            inputs.update(case)
+            nat = native_outcome(h, inputs)
+            if nat[0] in ("violation", "escaped"):
+                site = nat[1] + ":(found by native replay of a path-condition model)" if nat[0] == "violation" else "escaped:" + str(nat[1])
+                res["violations"].append(dict(site=site, known=None, inputs=_jsonable(inputs), case=case, native=list(nat), confirmed=True))
+                break
+            # ask for a different candidate: flip the model on every scalar input term
+            block = []
+            for name, (kind, v) in eng.inputs.items():
+                for t in _terms(v):
+                    block.append(t != m.eval(t, model_completion=True))
+            if not block:
+                break
+            eng.solver.add(z3.Or(*block[:40]))
+            # diversify: prefer different low digits
+    except BaseException:
+        pass
+
+
+def _terms(v):
+    from pysym.values import SymBool, SymBV, SymBytes, SymFloat, SymInt, SymStr
+    if isinstance(v, (SymInt, SymBV, SymBool)):
+        return [v.t]
+    if isinstance(v, SymStr):
+        return [t for c in v.cs for t in _terms(c)]
+    if isinstance(v, SymBytes):
+        return [t for c in v.bs for t in _terms(c)]
+    if isinstance(v, SymFloat):
+        if v.dec is not None:
+            return [t for d in v.dec[1] for t in _terms(d)] + _terms(v.dec[0])
+        if v.t is not None:
+            return [v.t]
+    if isinstance(v, (list, tuple)):
+        return [t for x in v for t in _terms(x)]
+    return []
 
 
 def _where():
@@ -412,14 +464,15 @@ def finish(pid, tier, seed, harnesses, agg, funcs, wall, timed_out, kf):
                         "(PC and not cond), discharged = those answered unsat",
             solver=dict(engine="z3 " + _z3v(), checks=tot["checks"], solver_s=round(tot["solver_s"], 2),
                         assertion_solver_s=round(tot["assert_s"], 2), lemma_s=round(tot["lemma_s"], 2), unknown=0 if not inconclusive else None),
-            harnesses=hsummaries,
+            harnesses=hsummaries if len(hsummaries) <= 80 else hsummaries[:40] + [dict(note="%d further harnesses of the same shape omitted from this list (all counted in the totals)" % (len(hsummaries) - 40))],
+            harness_count=len(hsummaries),
             functions_interpreted=dict(sorted((k, v) for k, v in funcs.items() if not k.startswith("specs."))),
             exhaustive=False,
             result=("violation" if exit_code == 1 else "harness-error" if exit_code == 3 else "inconclusive" if exit_code == 2 else "holds-within-bounds"),
             known_findings_hit=sorted(known_hit),
             messages=out_lines[:20],
         ),
-        assumptions=sorted(set(sum([h.outside + h.stubs for h in harnesses], []))) + list(getattr(SPEC, "ASSUMPTIONS", [])),
+        assumptions=sorted(set(sum([h.outside + h.stubs + (["bounds: " + h.bounds] if len(harnesses) <= 80 else []) for h in harnesses], []))) + list(getattr(SPEC, "ASSUMPTIONS", [])),
         wall_s=round(wall, 2),
         violations=len(fresh),
     )
